@@ -1,4 +1,391 @@
-(* WSession.v -- stub; the model that belongs here is being written. *)
-From P7 Require Import Prelude.
+(* WSession.v -- the write session of py7zr.SevenZipFile (modes w/x) as a state machine with
+   fault points.  Mirrors, in the order of effects of the code:
+
+     SevenZipFile.write        py7zr.py  l.1078-1095   sanitise arcname; header.initialize();
+                                                       _make_file_info (lstat); files_info.files.append;
+                                                       emptyfiles.append; self.files.append; worker.archive
+     SevenZipFile.writef/_writef          l.1097-1131  check_archive_path; size probing; initialize;
+                                                       _make_file_info_from_name; 3 appends; worker.archive
+     SevenZipFile.writestr/_writestr      l.1133-1146  check_archive_path; type checks; _writef(BytesIO)
+     SevenZipFile.writeall/_writeall      l.1067-1076, 708-728  exists(); then write() per member, sorted
+     Worker.archive/write/writestr/_after_write  l.1533-1593
+     SevenZipCompressor.compress          compressor.py l.893-908 (blocks already fed stay in the stream)
+     close/_write_flush/flush_archive     l.1148-1164, 689-694, 1561-1575
+
+   The one quirk everything hinges on: the member is REGISTERED (three appends) before
+   Worker.archive opens / reads its source, and Worker.archive works on
+   files[worker.current_file_index], not on the member just registered.  When the source cannot be
+   opened or read, current_file_index is not advanced: the next call works on the failed member
+   again.
+
+   Representation: the Python lists  files / header.files_info.files / emptyfiles  (always equal
+   in length and content) are  map fst ws_done ++ ws_pend  and  worker.current_file_index  is
+   length ws_done  (the code keeps 0 <= current_file_index <= len(files)).
+   The digest function is a parameter (Section variable): CRC-32 in the executable instance.
+   stdlib only; no axioms. *)
+From P7 Require Import Prelude Crc32.
 Open Scope Z_scope.
-Definition wsession_dispatch (fn : Z) (a : tree) : tree := TL [TI (-2)].
+
+(* ------------------------------------------------------------------ *)
+(** * Sources, faults, operations                                       *)
+(* ------------------------------------------------------------------ *)
+
+(* what the caller hands over: a regular file by path, a directory by path, a symbolic link by
+   path (dereference=False: the link target is archived), in-memory data / a file object *)
+Inductive skind := KFile | KDir | KLink | KData.
+
+(* FStat : write(): lstat raises (source missing, EACCES, EIO) / writef: tell/seek raises,
+           unsupported object / writestr: unsupported data type / writeall: is_symlink raises
+   FName : arcname rejected (AbsolutePathError in write, ValueError from check_archive_path)
+   FOpen : Path.open raises (file removed after lstat, EACCES, EIO); readlink raises for a link
+   FRead k : read() raises once k bytes of the source have been delivered *)
+Inductive fkind := FStat | FName | FOpen | FRead (k : nat).
+(* sticky = the environment still has the fault when the source is touched again *)
+Record fault := mkFault { f_kind : fkind; f_sticky : bool }.
+Record src := mkSrc { s_name : Z; s_kind : skind; s_data : bytes; s_fault : option fault }.
+
+Inductive api := AWrite | AWritestr | AWritef.
+Inductive wop :=
+| OCall (a : api) (s : src)
+| OWriteall (root_missing : bool) (l : list src).   (* l = the tree in the order _writeall visits it *)
+Inductive wout := Returned | Raised.
+
+(* ------------------------------------------------------------------ *)
+(** * State                                                             *)
+(* ------------------------------------------------------------------ *)
+
+(* a registered member (a file_info dict) together with the state of its source *)
+Record wfile := mkFile { w_name : Z; w_kind : skind; w_data : bytes; w_pos : nat; w_fault : option fault }.
+
+Definition is_dir (f : wfile) : bool := match w_kind f with KDir => true | _ => false end.
+
+Record wstate {D : Type} := mkState {
+  ws_init : bool;                    (* header._initialized *)
+  ws_done : list (wfile * nat);      (* files[0 .. current_file_index), with the source position the data was read from *)
+  ws_pend : list wfile;              (* files[current_file_index ..] *)
+  ws_last : Z;                       (* worker.last_file_index *)
+  ws_subs : list (nat * D);          (* substreamsinfo.unpacksizes / digests *)
+  ws_stream : bytes;                 (* every byte fed to the folder's compressor so far *)
+  ws_garb : nat                      (* ghost: how many of those bytes belong to no sub-stream *)
+}.
+Arguments wstate D : clear implicits.
+
+Definition ws_files {D} (st : wstate D) : list wfile := map fst (ws_done st) ++ ws_pend st.
+Definition ws_cur {D} (st : wstate D) : nat := length (ws_done st).
+
+Definition st0 {D} : wstate D := mkState D false [] [] (-1) [] [] O.
+
+Definition post_fault (o : option fault) : option fault :=
+  match o with
+  | Some (mkFault FOpen _) => o
+  | Some (mkFault (FRead _) _) => o
+  | _ => None
+  end.
+
+(* the member the call registers *)
+Definition file_of_src (a : api) (s : src) : wfile :=
+  match a with
+  | AWrite => mkFile (s_name s) (match s_kind s with KData => KFile | k => k end) (s_data s) O (post_fault (s_fault s))
+  | AWritef => mkFile (s_name s) KData (s_data s) O (post_fault (s_fault s))
+  | AWritestr => mkFile (s_name s) KData (s_data s) O None      (* the BytesIO is made by _writestr itself *)
+  end.
+
+Definition disarm (f : wfile) : wfile :=
+  match w_fault f with
+  | Some (mkFault _ false) => mkFile (w_name f) (w_kind f) (w_data f) (w_pos f) None
+  | _ => f
+  end.
+Definition set_pos (f : wfile) (p : nat) : wfile := mkFile (w_name f) (w_kind f) (w_data f) p (w_fault f).
+
+Inductive rd := RdOk (bs : bytes) (f' : wfile) | RdFail (consumed : bytes) (f' : wfile).
+
+Definition is_kdata (f : wfile) : bool := match w_kind f with KData => true | _ => false end.
+
+(* Worker.write / Worker.writestr up to and including compressor.compress(fd, fp).
+   [anydata]: some registered member came from writestr/writef (its "origin" is None) *)
+Definition read_src (anydata : bool) (f : wfile) : rd :=
+  match w_kind f with
+  | KDir => RdOk [] f
+  | KLink =>
+      (* _find_link_target: helpers.readlink raises (EINVAL for a dangling link); then the loop
+         `for j in range(len(self.files)): if linkname == self.files[j].origin.as_posix()` raises
+         AttributeError on the first member without origin (the link text is assumed not to be the
+         path of an archived source, so the loop never breaks early); then BytesIO(target) *)
+      match w_fault f with
+      | Some (mkFault FOpen _) => RdFail [] (disarm f)
+      | _ => if anydata then RdFail [] f else RdOk (w_data f) f
+      end
+  | KFile =>                        (* f.origin.open(): every attempt starts at offset 0 *)
+      match w_fault f with
+      | Some (mkFault FOpen _) => RdFail [] (disarm f)
+      | Some (mkFault (FRead k) _) =>
+          if (k <? length (w_data f))%nat then RdFail (firstn k (w_data f)) (disarm f)
+          else RdOk (w_data f) f
+      | _ => RdOk (w_data f) f
+      end
+  | KData =>                        (* f.data(): the caller's object, it keeps its position *)
+      let rest := skipn (w_pos f) (w_data f) in
+      match w_fault f with
+      | Some (mkFault (FRead k) _) =>
+          if (k <? length (w_data f))%nat
+          then RdFail (firstn (k - w_pos f) rest) (disarm (set_pos f (Nat.max (w_pos f) k)))
+          else RdOk rest (set_pos f (length (w_data f)))
+      | _ => RdOk rest (set_pos f (length (w_data f)))
+      end
+  end.
+
+Section Model.
+Context {D : Type}.
+Variable dg : bytes -> D.            (* calculate_crc32 over the whole member *)
+Variable deq : D -> D -> bool.
+Notation wstate := (wstate D).
+
+(* Worker.archive(fp, files, folder) *)
+Definition archive (st : wstate) : wstate * wout :=
+  match ws_pend st with
+  | [] => (st, Raised)                                   (* files[current_file_index]: IndexError *)
+  | f :: p =>
+      if is_dir f then
+        (mkState D (ws_init st) (ws_done st ++ [(f, O)]) p (ws_last st) (ws_subs st) (ws_stream st) (ws_garb st),
+         Returned)
+      else
+        match read_src (existsb is_kdata (ws_files st)) f with
+        | RdOk bs f' =>                                   (* _after_write; last_file_index; current_file_index += 1 *)
+            (mkState D (ws_init st) (ws_done st ++ [(f', w_pos f)]) p (Z.of_nat (length (ws_done st)))
+                     (ws_subs st ++ [(length bs, dg bs)]) (ws_stream st ++ bs) (ws_garb st), Returned)
+        | RdFail c f' =>                                  (* the exception leaves archive() here *)
+            (mkState D (ws_init st) (ws_done st) (f' :: p) (ws_last st) (ws_subs st) (ws_stream st ++ c)
+                     (ws_garb st + length c), Raised)
+        end
+  end.
+
+Definition set_init (st : wstate) : wstate :=
+  mkState D true (ws_done st) (ws_pend st) (ws_last st) (ws_subs st) (ws_stream st) (ws_garb st).
+Definition register (st : wstate) (f : wfile) : wstate :=
+  mkState D (ws_init st) (ws_done st) (ws_pend st ++ [f]) (ws_last st) (ws_subs st) (ws_stream st) (ws_garb st).
+
+Definition fault_kind (s : src) : option fkind := option_map f_kind (s_fault s).
+
+(* SevenZipFile.write *)
+Definition call_write (st : wstate) (s : src) : wstate * wout :=
+  match fault_kind s with
+  | Some FName => (st, Raised)                            (* _sanitize_archive_arcname raises first *)
+  | Some FStat => (set_init st, Raised)                   (* header.initialize() precedes _make_file_info *)
+  | _ => archive (register (set_init st) (file_of_src AWrite s))
+  end.
+
+(* SevenZipFile.writestr / writef *)
+Definition call_data (a : api) (st : wstate) (s : src) : wstate * wout :=
+  match fault_kind s with
+  | Some FName => (st, Raised)
+  | Some FStat => (st, Raised)                            (* argument checks precede header.initialize() *)
+  | _ => archive (register (set_init st) (file_of_src a s))
+  end.
+
+(* one member visited by _writeall: is_symlink()/is_file()/is_dir() come before write() *)
+Definition elem_writeall (st : wstate) (s : src) : wstate * wout :=
+  match fault_kind s with
+  | Some FStat => (st, Raised)
+  | _ => call_write st s
+  end.
+
+Fixpoint writeall_loop (st : wstate) (l : list src) : wstate * wout :=
+  match l with
+  | [] => (st, Returned)
+  | s :: r =>
+      match elem_writeall st s with
+      | (st', Raised) => (st', Raised)
+      | (st', Returned) => writeall_loop st' r
+      end
+  end.
+
+Definition wstep (st : wstate) (op : wop) : wstate * wout :=
+  match op with
+  | OCall AWrite s => call_write st s
+  | OCall a s => call_data a st s
+  | OWriteall true _ => (st, Raised)                     (* "specified path does not exist." *)
+  | OWriteall false l => writeall_loop st l
+  end.
+
+Fixpoint run (st : wstate) (ops : list wop) : wstate * list wout :=
+  match ops with
+  | [] => (st, [])
+  | op :: r =>
+      let '(st1, o) := wstep st op in
+      let '(st2, os) := run st1 r in (st2, o :: os)
+  end.
+
+(* ------------------------------------------------------------------ *)
+(** * close() and a conforming reader                                   *)
+(* ------------------------------------------------------------------ *)
+
+(* what close() commits: the header's file entries with their emptystream flag, the sub-stream
+   table, and the folder whose decoded content is the compressor's input *)
+Record adescr := mkDescr {
+  ad_init : bool;                    (* main_streams present *)
+  ad_files : list (Z * bool);        (* name, emptystream *)
+  ad_subs : list (nat * D);
+  ad_stream : bytes
+}.
+
+Definition wclose (st : wstate) : adescr :=
+  mkDescr (ws_init st) (map (fun f => (w_name f, is_dir f)) (ws_files st)) (ws_subs st) (ws_stream st).
+
+Inductive mres := MDir | MData (bs : bytes) | MCrc.
+
+(* the folder content is cut by the sub-stream sizes; the size of the last sub-stream of a folder
+   is not stored, it is the folder's unpack size minus the others *)
+Fixpoint cut (subs : list (nat * D)) (stream : bytes) : option (list (bytes * D)) :=
+  match subs with
+  | [] => Some []
+  | (n, c) :: r =>
+      match r with
+      | [] => Some [(stream, c)]
+      | _ :: _ =>
+          if (n <=? length stream)%nat
+          then option_map (cons (firstn n stream, c)) (cut r (skipn n stream))
+          else None
+      end
+  end.
+
+(* entries with data are matched to sub-streams in order; a mismatch in counts = unreadable *)
+Fixpoint assign (files : list (Z * bool)) (sl : list (bytes * D)) : option (list (Z * mres)) :=
+  match files with
+  | [] => match sl with [] => Some [] | _ :: _ => None end
+  | (n, true) :: r => option_map (cons (n, MDir)) (assign r sl)
+  | (n, false) :: r =>
+      match sl with
+      | [] => None
+      | (bs, c) :: sl' => option_map (cons (n, if deq (dg bs) c then MData bs else MCrc)) (assign r sl')
+      end
+  end.
+
+Definition readable (a : adescr) : option (list (Z * mres)) :=
+  if ad_init a then
+    match cut (ad_subs a) (ad_stream a) with
+    | Some sl => assign (ad_files a) sl
+    | None => None
+    end
+  else match ad_files a with [] => Some [] | _ :: _ => None end.
+
+(* the observable meaning of a session state: what a reader gets after close() *)
+Definition abs (st : wstate) : option (list (Z * mres)) := readable (wclose st).
+
+Definition is_crc (m : Z * mres) : bool := match snd m with MCrc => true | _ => false end.
+Definition all_pass (ms : list (Z * mres)) : bool := negb (existsb is_crc ms).
+
+(* ------------------------------------------------------------------ *)
+(** * What the property asks for                                        *)
+(* ------------------------------------------------------------------ *)
+
+Definition full_member (f : wfile) : Z * mres :=
+  (w_name f, if is_dir f then MDir else MData (w_data f)).
+
+Definition has_fault (s : src) : bool := match s_fault s with Some _ => true | None => false end.
+
+(* members of the tree before the first faulty one *)
+Fixpoint ok_prefix (l : list src) : list src :=
+  match l with
+  | [] => []
+  | s :: r => if has_fault s then [] else s :: ok_prefix r
+  end.
+
+(* the members a call that behaves as the property demands leaves in the archive
+   (writeall is the sequence of its write() calls) *)
+Definition expected (op : wop) : list (Z * mres) :=
+  match op with
+  | OCall a s => if has_fault s then [] else [full_member (file_of_src a s)]
+  | OWriteall true _ => []
+  | OWriteall false l => map (fun s => full_member (file_of_src AWrite s)) (ok_prefix l)
+  end.
+
+Definition expected_out (op : wop) : wout :=
+  match op with
+  | OCall _ s => if has_fault s then Raised else Returned
+  | OWriteall true _ => Raised
+  | OWriteall false l => if existsb has_fault l then Raised else Returned
+  end.
+
+Definition pre_fault (k : fkind) : bool := match k with FStat | FName => true | _ => false end.
+Definition pre_only_src (s : src) : bool :=
+  match fault_kind s with None => true | Some k => pre_fault k end.
+Definition pre_only (op : wop) : bool :=
+  match op with
+  | OCall _ s => pre_only_src s
+  | OWriteall _ l => forallb pre_only_src l
+  end.
+
+(* members a call registers but whose call raised: their data must never enter the archive *)
+Definition failed_names (op : wop) (o : wout) : list Z :=
+  match o with
+  | Returned => []
+  | Raised => match op with
+              | OCall _ s => [s_name s]
+              | OWriteall _ l => map s_name (filter has_fault l)
+              end
+  end.
+
+Fixpoint failed_of (ops : list wop) (outs : list wout) : list Z :=
+  match ops, outs with
+  | op :: r, o :: os => failed_names op o ++ failed_of r os
+  | _, _ => []
+  end.
+
+Definition has_data (ms : list (Z * mres)) (n : Z) : bool :=
+  existsb (fun m => (fst m =? n) && match snd m with MData _ => true | _ => false end) ms.
+
+End Model.
+
+(* ------------------------------------------------------------------ *)
+(** * Executable instance (CRC-32) and the dispatcher                   *)
+(* ------------------------------------------------------------------ *)
+
+Definition run32 := @run Z crc32.
+Definition abs32 := @abs Z crc32 Z.eqb.
+
+Definition of_nat_t (t : tree) : nat := Z.to_nat (of_TI t).
+Definition of_skind (t : tree) : skind :=
+  match of_TI t with 0 => KFile | 1 => KDir | 2 => KLink | _ => KData end.
+Definition of_fault (t : tree) : option fault :=
+  match of_TL t with
+  | k :: n :: s :: _ =>
+      Some (mkFault (match of_TI k with 0 => FStat | 1 => FName | 2 => FOpen | _ => FRead (of_nat_t n) end) (of_bool s))
+  | _ => None
+  end.
+(* src = (name kind data fault) ; fault = () | (kind k sticky) *)
+Definition of_src (t : tree) : src :=
+  mkSrc (of_TI (tnth t 0)) (of_skind (tnth t 1)) (of_bytes (tnth t 2)) (of_fault (tnth t 3)).
+(* op = (0|1|2 src) | (3 root_missing (src ...)) *)
+Definition of_op (t : tree) : wop :=
+  match of_TI (tnth t 0) with
+  | 0 => OCall AWrite (of_src (tnth t 1))
+  | 1 => OCall AWritestr (of_src (tnth t 1))
+  | 2 => OCall AWritef (of_src (tnth t 1))
+  | _ => OWriteall (of_bool (tnth t 1)) (map of_src (of_TL (tnth t 2)))
+  end.
+
+Definition t_nat (n : nat) : tree := TI (Z.of_nat n).
+Definition t_out (o : wout) : tree := TI (match o with Returned => 0 | Raised => 1 end).
+Definition t_mres (m : Z * mres) : tree :=
+  match snd m with
+  | MDir => TL [TI (fst m); TI 0; TL []]
+  | MData bs => TL [TI (fst m); TI 1; t_bytes bs]
+  | MCrc => TL [TI (fst m); TI 2; TL []]
+  end.
+Definition t_state (st : wstate Z) : tree :=
+  TL [t_bool (ws_init st); t_nat (ws_cur st); t_nat (length (ws_files st)); TI (ws_last st);
+      TL (map (fun p => t_nat (fst p)) (ws_subs st)); TL (map (fun p => TI (snd p)) (ws_subs st));
+      t_bytes (ws_stream st); TL (map (fun f => TI (w_name f)) (ws_files st))].
+
+Definition wsession_dispatch (fn : Z) (a : tree) : tree :=
+  match fn with
+  (* FN 220 ws_run : (op ...) -> ((out ...) state readable) ; readable = () | ((name tag bytes) ...) *)
+  | 220 =>
+      let '(st, outs) := run32 st0 (map of_op (of_TL a)) in
+      TL [TL (map t_out outs); t_state st; t_opt (fun ms => TL (map t_mres ms)) (abs32 st)]
+  (* FN 221 ws_expected : (op ...) -> ((out ...) ((name tag bytes) ...)) what the property demands *)
+  | 221 =>
+      let ops := map of_op (of_TL a) in
+      TL [TL (map (fun op => t_out (expected_out op)) ops); TL (map t_mres (flat_map expected ops))]
+  | _ => TL [TI (-2)]
+  end.
